@@ -34,7 +34,12 @@ func init() {
 			"re-add after purge, remove twice, latest after purge.  The SAME sequence is applied to a real mem store and a real file " +
 			"store; each return value and, after every op, every mailbox of the history is compared with the reference model; the two " +
 			"back-ends are compared op by op (ids by position).  A case is non-trivial when it delivered, removed and looked up a " +
-			"missing message at least once; distinct by (name classes, set of operation/outcome features reached, length bucket).",
+			"missing message at least once; distinct by (name classes, set of operation/outcome features reached, length bucket).  " +
+			"Stream owners (after seeded change C07-11): 2-4 goroutines released together (GOMAXPROCS > 1), each the only user of one " +
+			"mailbox, the names neighbours in the file store's layout (same 3 hex digits of the hash but not the 4th; same 4 but another " +
+			"level-2 directory; same level-2 directory; unrelated); each owner cycles its mailbox 50-100 times through deliver 1-3 / read " +
+			"back / empty (remove one by one, purge) with the sequential executor and its own one-mailbox model on a file store and a " +
+			"memory store shared by all owners: every operation must give exactly the owner's expected result whatever the neighbours do.",
 		Assumptions: []string{
 			"the stores are driven through the storage.Store interface with message.Delivery values, as StoreManager does; From is never nil and To has no nil element",
 			"Size() is compared with the number of bytes of the Delivery reader (Delivery.Size is set to the same value)",
@@ -42,7 +47,8 @@ func init() {
 			"MarkSeen/RemoveMessage are never called with the id \"latest\" (unspecified); ids differing from \"latest\" only in case are treated as ordinary ids",
 			"empty mailboxes reported by VisitMailboxes are ignored; whether the callback is called again after it returned false is counted, not judged",
 			"the empty mailbox name is an ordinary name at the Store interface (both stores treat it so); it is judged like any other name",
-			"the file store issues ids from the wall-clock second plus a process-wide 4-digit counter: the check assumes fewer than 10000 deliveries per second per process",
+			"the file store issues ids from the wall-clock second plus a process-wide 4-digit counter: the check assumes fewer than 10000 deliveries per second per process (stream owners delays deliveries beyond 4000 per clock second; the clock takes no part in a verdict)",
+			"stream owners: a mailbox is used by one goroutine only; nothing is demanded about a mailbox under concurrent use by several parties (C09)",
 		},
 		MinObs: func(tier string) map[string]int64 {
 			k := int64(1)
@@ -68,6 +74,12 @@ func init() {
 				"sequences_with_same_bucket_names": 100 * k,
 				"file/ops_on_empty_name":           50 * k,
 				"file/marked_seen":                 500 * k,
+				// stream "owners": concurrent owners of neighbouring mailboxes; how often the call that
+				// emptied one mailbox really ran while a neighbour delivered into its empty mailbox
+				"owners/cases": 24 * k, "owners/rounds": 3000 * k, "owners/empties": 3000 * k,
+				"owners/file/op:add": 5000 * k, "owners/ops_compared_between_backends": 20000 * k,
+				"owners/cases_with_names_sharing_3_hex_digits_not_the_4th": 15 * k,
+				"owners/empty_overlaps_neighbour_first_delivery":           300 * k,
 			}
 		},
 		ChildTimeout: func(tier string) time.Duration {
@@ -86,6 +98,14 @@ func run(c *fw.Ctx) {
 		ok, dump := c.Within(10*time.Minute, func() { runSeq(c, i, r) })
 		if !ok {
 			c.Hang("store-operation", "an operation sequence did not finish within the watchdog", dump)
+		}
+	})
+	// Stream "owners" (added after seeded change C07-11, see owners.go): concurrent owners of
+	// neighbouring mailboxes, each with an exact sequential expectation.
+	c.Cases("owners", c.N(24, 400), func(i int, r *fw.Rand) {
+		ok, dump := c.Within(10*time.Minute, func() { runOwners(c, i, r) })
+		if !ok {
+			c.Hang("store-operation", "concurrent owners of neighbouring mailboxes did not finish within the watchdog", dump)
 		}
 	})
 	c.Cases("wrap", c.N(4, 48), func(i int, r *fw.Rand) {
